@@ -47,7 +47,10 @@ class TimelineProcess(Process):
                 self.timeline_ports = deep_merge_combine_lists(self.timeline_ports, port)
 
     def ports_schema(self):
-        self.initialize_timeline()
+        # asking for the ports again must not re-arm the events that
+        # have already fired
+        if not hasattr(self, 'timeline'):
+            self.initialize_timeline()
 
         schema = {
             port: {
